@@ -678,6 +678,23 @@ class _Merger(object):
                     'Unmatched keyword parameters: {0}'.format(
                     ' '.join(str(arg) for arg in non_defaulted)))
 
+    @staticmethod
+    def _same_annotation(left, right):
+        l_up = left.upgraded_annotation
+        r_up = right.upgraded_annotation
+        if (
+            isinstance(l_up, _PostponedAnnotation)
+            and isinstance(r_up, _PostponedAnnotation)
+            and l_up._function.__globals__ is not r_up._function.__globals__
+        ):
+            # the same spelling can denote different objects in different
+            # modules (and different spellings the same object)
+            try:
+                return l_up.source_value() == r_up.source_value()
+            except Exception:
+                return False
+        return left.annotation == right.annotation
+
     def _concile_meta(self, left, right):
         default = left.empty
         if left.default != left.empty and right.default != right.empty:
@@ -692,7 +709,7 @@ class _Merger(object):
         annotation = left.empty
         upgraded_annotation = EmptyAnnotation
         if left.annotation != left.empty and right.annotation != right.empty:
-            if left.annotation == right.annotation:
+            if self._same_annotation(left, right):
                 annotation = left.annotation
                 upgraded_annotation = left.upgraded_annotation
         elif left.annotation != left.empty:
